@@ -104,10 +104,18 @@ class FakeBam:
 
     def fetch(self, chr_id, start, end, multiple_iterators=False):
         self.fetches += 1
+        if self.length is None:
+            # the header of this file does not list the sequence (pysam: ValueError "invalid contig")
+            raise ValueError("invalid contig `%s`" % chr_id)
         return iter([a for a in self.recs if a.reference_start < end and a.reference_end > start])
 
     def get_reference_length(self, chr_id):
+        if self.length is None:
+            raise KeyError("unknown reference %s" % chr_id)          # pysam
         return self.length
+
+    def get_tid(self, chr_id):
+        return -1 if self.length is None else 0        # pysam: -1 = the header does not list the sequence
 
     def reset(self):
         pass
@@ -116,28 +124,55 @@ class FakeBam:
         pass
 
 
-def fake_pairs(files, length=None):
+def own_headers(rng, files):
+    """per-file header entry of the sequence for a partition whose parts do NOT share a header: a part without records may
+    not list the sequence at all (None; a part made by subsetting to other chromosomes), a part with records gives it a
+    length >= its last record (parts aligned against / re-headered to different builds)"""
+    res = []
+    for f in files:
+        if not f:
+            res.append(None if rng.random() < 0.7 else rng.choice([1, 40, 100000]))
+        else:
+            res.append(max(r[1] for r in f) + rng.choice([0, 1, 10, 7000]))
+    return res
+
+
+def fake_pairs(files, length=None, headers=None):
     if length is None:
         length = max([r[1] for f in files for r in f] + [1]) + 10
+    if headers is not None:
+        return [(FakeBam(f, headers[i]), "file%d.bam" % i) for i, f in enumerate(files)]
     return [(FakeBam(f, length), "file%d.bam" % i) for i, f in enumerate(files)]
 
 
-def write_real_bams(d, files, length=None, prefix="p"):
-    """writes one indexed BAM per file list with pysam; returns [(AlignmentFile, path)]"""
+def write_real_bams(d, files, length=None, prefix="p", headers=None):
+    """writes one indexed BAM per file list with pysam; returns [(AlignmentFile, path)].  headers (see own_headers): the
+    @SQ lines differ from file to file - own length, chr1 not listed (the file lists chrZ only), chr1 behind chrZ in every
+    second file (another reference_id for the same sequence)"""
     import pysam
     os.makedirs(d, exist_ok=True)
     if length is None:
         length = max([r[1] for f in files for r in f] + [1]) + 10
-    hdr = {"HD": {"VN": "1.6", "SO": "coordinate"}, "SQ": [{"SN": "chr1", "LN": length}]}
+    hdr0 = {"HD": {"VN": "1.6", "SO": "coordinate"}, "SQ": [{"SN": "chr1", "LN": length}]}
     pairs = []
     for i, f in enumerate(files):
         path = os.path.join(d, "%s%d.bam" % (prefix, i))
+        hdr, rid = hdr0, 0
+        if headers is not None:
+            if headers[i] is None:
+                sq = [{"SN": "chrZ", "LN": 777}]
+            elif i % 2:
+                sq = [{"SN": "chrZ", "LN": 777}, {"SN": "chr1", "LN": max(1, headers[i])}]
+                rid = 1
+            else:
+                sq = [{"SN": "chr1", "LN": max(1, headers[i])}, {"SN": "chrZ", "LN": 777}]
+            hdr = {"HD": {"VN": "1.6", "SO": "coordinate"}, "SQ": sq}
         with pysam.AlignmentFile(path, "wb", header=hdr) as out:
             for s, e, t in f:
                 a = pysam.AlignedSegment()
                 a.query_name = "t%d" % t
                 a.flag = 0
-                a.reference_id = 0
+                a.reference_id = rid
                 a.reference_start = s
                 a.mapping_quality = 60
                 a.cigarstring = "%dM" % (e - s)
